@@ -71,6 +71,21 @@ Theorem C08_alloc_linear_pgp_packets : forall data,
 Proof. intros. destruct (pgp_opaque_spec data) as [H _]. exact H. Qed.
 Print Assumptions C08_alloc_linear_pgp_packets.
 
+(* the packet loop does not look inside a packet: whatever the tag - a compressed data packet
+   (tag 8) included - a body is a copy of the bytes present in the input for that packet and is
+   never inflated: the bodies of all packets together, plus one octet per packet, fit the input.
+   (The typed reader openpgp.ReadEntity, not modelled here, parses tag 8 into a decompressor that
+   it never reads; that it stays so is checked by measurement on key blocks that carry compressed
+   packets of 16-96 MiB content.) *)
+Theorem C08_pgp_packet_bodies_within_input : forall data,
+  bodies_len (fst (fst (pgp_opaque_all data))) + lenN (fst (fst (pgp_opaque_all data))) <= lenN data.
+Proof. exact pgp_opaque_bodies. Qed.
+Print Assumptions C08_pgp_packet_bodies_within_input.
+
+Example C08_pgp_compressed_packet_opaque :
+  fst (pgp_opaque_all [200; 8; 1; 1; 2; 0; 253; 255; 104; 105]) = ([(8, [1; 1; 2; 0; 253; 255; 104; 105])], false).
+Proof. exact pgp_compressed_opaque. Qed.
+
 Theorem C08_alloc_linear_der : forall data, cost_of (der_parse_raw data) <= 232 * lenN data.
 Proof. intros. destruct (der_parse_spec data) as [H _]. exact H. Qed.
 Print Assumptions C08_alloc_linear_der.
